@@ -572,7 +572,7 @@ class DeployStep(BaseStep):
                     # Process tags
                     for tag in list(inputs_map.keys()):
                         if len(inputs_map[tag]) == len(self.input_ports):
-                            inputs_map.pop(tag)
+                            inputs = inputs_map.pop(tag)
                             # Deploy the target
                             await self.workflow.context.deployment_manager.deploy(
                                 self.deployment_config
